@@ -162,6 +162,18 @@ def check(res):
                 nd += 1
                 if nd <= 3:
                     res.violation("diff", "model (Region.v) and implementation disagree", {"script": sc[:2000], "impl": impl_regions[:1500], "model": ml[i][:1500]}, no_input=True)
+    # nesting levels at every width boundary up to 2^64 - 1
+    fexe = build_driver("fsweep_driver", "asan", parts=12)
+    pl = run([fexe], input="N:levels\n", env=SAN_ENV, timeout=600)
+    import re as _re
+    ml_ = _re.search(r"levels=(\d+) bad=(\d+) first_bad=(\d+)", pl.stdout)
+    if not ml_ or pl.returncode != 0:
+        keys.add("crash:levels")
+        res.violation("crash:levels", "creating parameter lists at large nesting levels aborted", {"stdout": pl.stdout[-500:], "stderr": pl.stderr[-1500:]})
+    elif ml_.group(2) != "0":
+        keys.add("oracle:level")
+        res.violation("oracle:level", "a parameter list (or its parameter) created at nesting level %s reports another level (%s of %s levels tried read back wrong)" %
+                      (ml_.group(3), ml_.group(2), ml_.group(1)), {"observed": pl.stdout.strip(), "rerun": "echo N:levels | build/<hash>/asan/fsweep_driver"})
     # positions in ONE long parameter list / base list / enumeration (past 2^12 and 2^16 members)
     import fsweep
     ll_lines, ll_bad = fsweep.long_lists(res, "", res.tier)
